@@ -578,16 +578,15 @@ public:
 
             if( trans )
             {
-                //@todo What to do, here? How do I know the length of the "trans" array?
+                // palette images: one alpha value for each of the first _num_trans palette entries
+                this->_info._trans.assign( trans, trans + this->_info._num_trans );
             }
 
-            if( this->_info._num_trans )
+            if( this->_info._num_trans && trans_values )
             {
-                this->_info._trans_values.resize( this->_info._num_trans );
-                std::copy( trans_values
-                         , trans_values + this->_info._num_trans
-                         , &this->_info._trans_values.front()
-                         );
+                // libpng hands out the address of the one png_color_16 inside its info structure, whatever
+                // _num_trans says (for a palette image that is the number of alpha values above)
+                this->_info._trans_values.assign( 1, *trans_values );
             }
         }
 
